@@ -193,6 +193,7 @@ pub fn run(run: &Run) {
             .filter_map(|v| {
                 // a value the constructors refuse (or the formatter cannot print) yields no string
                 let v2 = v.clone();
+                let _w = crate::watch::enter_with(|| v.show());
                 crate::report::quiet_catch(std::panic::AssertUnwindSafe(move || f.e.format_narsese(&v2.build()))).ok().map(|s| (s, v))
             })
             .collect();
